@@ -89,15 +89,21 @@ def injections(ver, o, rng):
         yield "unregistered-extension", "top", oo
     if o["type"] == "bundle":
         for lab, member in (("unregistered-member", {"type": "x-unknown-member", "id": "x-unknown-member--" + V.uuid_text(rng, 4), "foo": 1}),):
-            oo = copy.deepcopy(o)
-            mem = dict(member)
-            if ver == "2.1":
-                mem["spec_version"] = "2.1"
-            oo.setdefault("objects", []).append(mem)
-            yield lab, "member", oo
+            for pos in ("last", "first", "middle"):
+                oo = copy.deepcopy(o)
+                mem = dict(member)
+                if ver == "2.1":
+                    mem["spec_version"] = "2.1"
+                objs = oo.setdefault("objects", [])
+                objs.insert({"last": len(objs), "first": 0, "middle": len(objs) // 2}[pos], mem)
+                yield lab, "member", oo
     if o["type"] == "observed-data" and isinstance(o.get("objects"), dict):
         oo = copy.deepcopy(o)
         oo["objects"][str(len(oo["objects"]))] = {"type": "x-unknown-observable", "foo": "bar"}
+        yield "unregistered-observable", "observable", oo
+        # the custom element first in the container, the registered ones after it
+        oo = copy.deepcopy(o)
+        oo["objects"] = dict([("99", {"type": "x-unknown-observable", "foo": "bar"})] + list(oo["objects"].items()))
         yield "unregistered-observable", "observable", oo
 
 
